@@ -100,7 +100,13 @@ pub fn st_mask(st: &ScalarType) -> u128 {
 
 pub fn value_to_tree(v: &Value, t: &Type) -> Result<VTree> {
     match t {
-        Type::Scalar(st) | Type::Array(_, st) => {
+        Type::Scalar(st) => {
+            if !v.check_type(t.clone())? {
+                return Err(runtime_error!("Type and value mismatch"));
+            }
+            Ok(VTree::Leaf(vec![v.to_u128(*st)? & st_mask(st)]))
+        }
+        Type::Array(_, st) => {
             let xs = v.to_flattened_array_u128(t.clone())?;
             let m = st_mask(st);
             Ok(VTree::Leaf(xs.into_iter().map(|x| x & m).collect()))
@@ -135,7 +141,12 @@ pub fn value_to_tree(v: &Value, t: &Type) -> Result<VTree> {
 
 pub fn tree_to_value(tr: &VTree, t: &Type) -> Result<Value> {
     match (tr, t) {
-        (VTree::Leaf(xs), Type::Scalar(st)) => Value::from_flattened_array(xs, *st),
+        (VTree::Leaf(xs), Type::Scalar(st)) => {
+            if xs.len() != 1 {
+                return Err(runtime_error!("scalar leaf must have one element"));
+            }
+            Value::from_scalar(xs[0], *st)
+        }
         (VTree::Leaf(xs), Type::Array(_, st)) => Value::from_flattened_array(xs, *st),
         (VTree::Node(vs), Type::Tuple(ts)) => Ok(Value::from_vector(
             vs.iter().zip(ts.iter()).map(|(x, t)| tree_to_value(x, t)).collect::<Result<_>>()?,
